@@ -869,6 +869,13 @@ func (w *hWorld) structural(orig *hFileSet) {
 			}[T.Draw(3, "struct.chunk.extra")]
 			setList(fs.provIndex, append(list(fs.provIndex, "chunks"), extra), "chunks")
 		}},
+		// a batch of deactivates only carries no deltas and has no provisional index: a reference to one (with a chunk
+		// file of no deltas behind it) is superfluous
+		{"superfluous-provisional-index-reference", fs.provIndex == nil && w.nCreate+w.nRecover+w.nUpdate == 0 && w.nDeact > 0, func() {
+			fs.ch = []map[string]interface{}{{"deltas": []interface{}{}}, {}}[T.Draw(2, "struct.superprov.chunk")]
+			fs.provIndex = map[string]interface{}{"chunks": []interface{}{map[string]interface{}{"chunkFileUri": "x"}}}
+			fs.core["provisionalIndexFileUri"] = "x"
+		}},
 		// the core index lists creates / recovers (which need deltas from a chunk file) but names no provisional index at
 		// all; the anchor count is what a reader that silently skips them would return
 		{"missing-provisional-index-reference", fs.provIndex != nil && w.nCreate+w.nRecover > 0, func() {
